@@ -11,7 +11,7 @@ ID = 'C05'
 PADMODES = ('symmetric', 'reflect', 'periodic')
 RULE = ('Hypothesis draws (dim, direction analysis/synthesis, wavelet with filter length <= 20, mode (5), J in 1..3, sizes '
         'incl. odd and shorter than the filter (1-D <= 48, 2-D <= 12x12), N, C, the subset of {lowpass, level 1..J} that '
-        'requires grad (synthesis), cotangent recipes). Oracle: the matrix J_f of the function computed by the forward pass '
+        'requires grad (synthesis), in 2-D for a third of the cases separate column and row wavelets (4-tuple), cotangent recipes). Oracle: the matrix J_f of the function computed by the forward pass '
         '(basis inputs, no_grad); torch.autograd.grad with basis cotangents in batch slots must give J_f^T for every input of '
         'the subset (never None); a dense (N,C) VJP must equal the per-slice action of that matrix. Inside the predicate of '
         'known finding D2 the observed VJP must equal EITHER J_f^T OR the independently modelled defective operator (adjoint '
@@ -50,7 +50,16 @@ def _case(draw, unit):
             need = dwtu.even_up(L) * 2 ** (J - 1)
         size = [max(s, need) for s in size]
     direction = unit.get('direction') or draw(st.sampled_from(['analysis', 'synthesis']))
-    case = {'dim': dim, 'direction': direction, 'wave': w, 'mode': mode, 'J': J, 'size': size,
+    w2 = None
+    if dim == 2 and draw(st.integers(0, 2)) == 0:
+        # separate column / row filters (4-tuple), constructed to differ
+        pick = draw(dwtu.wavelet_strategy(max_len=20))
+        w2 = pick if pick != w else W20[(W20.index(w) + 1 + draw(st.integers(0, len(W20) - 2))) % len(W20)]
+        L2 = dwtu.flen(w2)
+        size[1] = draw(dwtu.size_strategy(L2, J, cap=cap))
+        if mode == 'periodization':
+            size[1] = max(size[1], dwtu.even_up(L2) * 2 ** (J - 1))
+    case = {'dim': dim, 'direction': direction, 'wave': w, 'wave_row': w2, 'mode': mode, 'J': J, 'size': size,
             'N': draw(st.sampled_from([1, 2])), 'C': draw(st.sampled_from([1, 2])),
             'rx': draw(core.recipe_strategy()), 'rg': draw(core.recipe_strategy()), 'k': draw(st.integers(0, 10**6))}
     if direction == 'synthesis':
@@ -101,7 +110,7 @@ def _bands(lo, hi):
     return low, highs
 
 
-def analysis_defect_model(size, wave, mode, J):
+def analysis_defect_model(size, waves, mode, J):
     """B (total x n_in): the pinned backward equals B^T g; rows ordered
     [yl, yh_1 (finest), ..., yh_J], 2-D bands (LH, HL, HH)."""
     n_in = int(np.prod(size))
@@ -109,7 +118,7 @@ def analysis_defect_model(size, wave, mode, J):
     cur = list(size)
     highs = []
     for _ in range(J):
-        mats = [_defect_lvl(n, wave, mode) for n in cur]
+        mats = [_defect_lvl(n, wv, mode) for n, wv in zip(cur, waves)]
         low, hi = _bands([m[0] for m in mats], [m[1] for m in mats])
         highs.append(hi @ Bprev)
         Bprev = low @ Bprev
@@ -117,13 +126,13 @@ def analysis_defect_model(size, wave, mode, J):
     return np.vstack([Bprev] + highs)
 
 
-def synthesis_defect_model(lo_shape, hi_shapes, wave, mode):
+def synthesis_defect_model(lo_shape, hi_shapes, waves, mode):
     """Bm (total x n_out): the pinned SFB backward chain gives Bm @ g. Rows
     ordered [yl, yh_1 (finest), ...]. Returns None if the model does not apply
     (shape mismatch)."""
     dim = len(lo_shape)
-    L = wave.dec_len
-    cw = pywt.Wavelet('c', filter_bank=[wave.rec_lo[::-1], wave.rec_hi[::-1], wave.rec_lo, wave.rec_hi])
+    Ls = [wv.dec_len for wv in waves]
+    cws = [pywt.Wavelet('c', filter_bank=[wv.rec_lo[::-1], wv.rec_hi[::-1], wv.rec_lo, wv.rec_hi]) for wv in waves]
     J = len(hi_shapes)
     ks = [tuple(s[-dim:]) for s in hi_shapes]
     # forward chain of shapes, coarsest to finest
@@ -131,7 +140,7 @@ def synthesis_defect_model(lo_shape, hi_shapes, wave, mode):
     chain = []                       # per level j: (shape_before_crop, k_j, out_shape)
     for j in range(J - 1, -1, -1):
         k = ks[j]
-        out = tuple((2 * a if mode == 'periodization' else 2 * a - L + 2) for a in k)
+        out = tuple((2 * a if mode == 'periodization' else 2 * a - L + 2) for a, L in zip(k, Ls))
         chain.append((j, cur, k, out))
         cur = out
     n_out = int(np.prod(cur))
@@ -140,7 +149,7 @@ def synthesis_defect_model(lo_shape, hi_shapes, wave, mode):
     Bm = np.zeros((sum(sizes), n_out))
     G = np.eye(n_out)
     for (j, before, k, out) in reversed(chain):
-        Ws = [pywt.dwt(np.eye(o), cw, mode=mode, axis=0) for o in out]
+        Ws = [pywt.dwt(np.eye(o), cw, mode=mode, axis=0) for o, cw in zip(out, cws)]
         if any(W[0].shape[0] != kk for W, kk in zip(Ws, k)):
             return None
         low, hi = _bands([W[0] for W in Ws], [W[1] for W in Ws])
@@ -158,6 +167,22 @@ def synthesis_defect_model(lo_shape, hi_shapes, wave, mode):
 
 
 # ---------------------------------------------------------------- the check
+def _wave_names(case):
+    if case['dim'] == 1:
+        return [case['wave']]
+    return [case['wave'], case.get('wave_row') or case['wave']]
+
+
+def _wave_arg(case, kind):
+    """The `wave` constructor argument: a name, or a 4-tuple (col lo, col hi, row lo, row hi)."""
+    if not case.get('wave_row'):
+        return case['wave']
+    wc, wr = pywt.Wavelet(case['wave']), pywt.Wavelet(case['wave_row'])
+    if kind == 'dec':
+        return (np.array(wc.dec_lo), np.array(wc.dec_hi), np.array(wr.dec_lo), np.array(wr.dec_hi))
+    return (np.array(wc.rec_lo), np.array(wc.rec_hi), np.array(wr.rec_lo), np.array(wr.rec_hi))
+
+
 def _flat(ts):
     return torch.cat([t.reshape(t.shape[0], -1) for t in ts], dim=1)
 
@@ -166,10 +191,12 @@ def run_case(case):
     r = Result()
     dim, w, mode, J = case['dim'], case['wave'], case['mode'], case['J']
     size = list(case['size'])
-    L = dwtu.flen(w)
-    per_axis = [dwtu.level_lengths(n, L, mode, J) for n in size]
+    names = _wave_names(case)
+    Ls = [dwtu.flen(n_) for n_ in names]
+    per_axis = [dwtu.level_lengths(n, L, mode, J) for n, L in zip(size, Ls)]
     r.label('dim%d' % dim, case['direction'], mode, 'J>=2' if J >= 2 else None,
-            'odd' if any(n % 2 for n in size) else None, 'short<L' if any(n < L for n in size) else None)
+            'odd' if any(n % 2 for n in size) else None, 'short<L' if any(n < L for n, L in zip(size, Ls)) else None,
+            'separate_row_col_filters' if case.get('wave_row') else None)
     with dwtu.default_dtype(torch.float64):
         if case['direction'] == 'analysis':
             return _analysis(case, r, per_axis)
@@ -180,15 +207,16 @@ def _analysis(case, r, per_axis):
     from pytorch_wavelets import DWT1DForward, DWTForward
     dim, w, mode, J = case['dim'], case['wave'], case['mode'], case['J']
     size = list(case['size'])
-    L = dwtu.flen(w)
-    wave = pywt.Wavelet(w)
-    in_d1 = any(dwtu.d1_analysis(ns, L, mode) or dwtu.d1_synthesis(ks, L, mode) for ns, ks in per_axis)
-    may_raise = any(dwtu.reflect_may_raise(ns, L, mode) for ns, _ in per_axis)
+    names = _wave_names(case)
+    Ls = [dwtu.flen(n_) for n_ in names]
+    waves = [pywt.Wavelet(n_) for n_ in names]
+    in_d1 = any(dwtu.d1_analysis(ns, L, mode) or dwtu.d1_synthesis(ks, L, mode) for (ns, ks), L in zip(per_axis, Ls))
+    may_raise = any(dwtu.reflect_may_raise(ns, L, mode) for (ns, _), L in zip(per_axis, Ls))
     d2a = mode in PADMODES
     d2b = mode == 'periodization' and any(n % 2 for ns, _ in per_axis for n in ns)
     r.label('in_D2_predicate' if (d2a or d2b) else None, 'in_D1_predicate' if in_d1 else None)
     r.nontrivial = J >= 2 or any(n % 2 for n in size) or mode != 'zero'
-    fwd = (DWT1DForward if dim == 1 else DWTForward)(J=J, wave=w, mode=mode)
+    fwd = (DWT1DForward if dim == 1 else DWTForward)(J=J, wave=_wave_arg(case, 'dec'), mode=mode)
     n_in = int(np.prod(size))
     with torch.no_grad():
         ok, out = lib(fwd, torch.tensor(dwtu.basis(size)[:, None]))
@@ -223,7 +251,7 @@ def _analysis(case, r, per_axis):
         msg = 'backward of the forward DWT is not J^T g: ' + core.first_mismatch(got, want, tol)
         matched = False
         if d2a or d2b:
-            B = analysis_defect_model(size, wave, mode, J)
+            B = analysis_defect_model(size, waves, mode, J)
             if B.shape == (total, n_in):
                 okm, _ = core.close(got, Cg @ B, tol)
                 matched = okm
@@ -257,18 +285,24 @@ def _synthesis(case, r, per_axis):
     from pytorch_wavelets import DWT1DInverse, DWTInverse
     dim, w, mode, J = case['dim'], case['wave'], case['mode'], case['J']
     size = list(case['size'])
-    L = dwtu.flen(w)
-    wave = pywt.Wavelet(w)
+    wnames = _wave_names(case)
+    Ls = [dwtu.flen(n_) for n_ in wnames]
+    waves = [pywt.Wavelet(n_) for n_ in wnames]
     sub = case['grad']
     names = ['low'] + list(range(J))
-    in_d1 = any(dwtu.d1_synthesis(ks, L, mode) or dwtu.d1_analysis([2 * k for k in ks], L, mode) for _, ks in per_axis)
+    in_d1 = any(dwtu.d1_synthesis(ks, L, mode) or dwtu.d1_analysis([2 * k for k in ks], L, mode)
+                for (_, ks), L in zip(per_axis, Ls))
     d2c = mode in PADMODES
     r.label('in_D2_predicate' if d2c else None, 'in_D1_predicate' if in_d1 else None,
             'proper_grad_subset' if len(sub) < J + 1 else None,
             'low_without_grad' if 'low' not in sub else None)
     r.nontrivial = len(sub) < J + 1 or J >= 2 or any(n % 2 for n in size) or mode != 'zero'
-    inv = (DWT1DInverse if dim == 1 else DWTInverse)(wave=w, mode=mode)
-    lo_shape, hi_shapes = dwtu.pyr_shapes(size, L, mode, J)
+    inv = (DWT1DInverse if dim == 1 else DWTInverse)(wave=_wave_arg(case, 'rec'), mode=mode)
+    if dim == 1:
+        lo_shape, hi_shapes = dwtu.pyr_shapes(size, Ls[0], mode, J)
+    else:
+        kh, kw = per_axis[0][1], per_axis[1][1]
+        lo_shape, hi_shapes = (kh[-1], kw[-1]), [(3, a, b) for a, b in zip(kh, kw)]
     shapes = {'low': tuple(lo_shape)}
     for j in range(J):
         shapes[j] = tuple(hi_shapes[j])
@@ -303,7 +337,7 @@ def _synthesis(case, r, per_axis):
     y = core.libcall(inv, (low, highs))
     ok, G = lib(torch.autograd.grad, y.reshape(K, -1), [ts[k] for k in sub], torch.tensor(Cg), allow_unused=True)
     out_may_raise = mode == 'reflect' and any((n % 2 == 0 and n <= L - 2) or (n % 2 == 1 and n <= L - 1)
-                                              for n in out_shape)
+                                              for n, L in zip(out_shape, Ls))
     if not ok:
         if d2c and out_may_raise and core.kf_open('KF-D2c', ID):
             # the defective backward runs the analysis bank in reflect mode on the cotangent, which torch rejects
@@ -329,7 +363,7 @@ def _synthesis(case, r, per_axis):
         matched = False
         if d2c:
             if Bm is None:
-                Bm = synthesis_defect_model(lo_shape, hi_shapes, wave, mode)
+                Bm = synthesis_defect_model(lo_shape, hi_shapes, waves, mode)
             if Bm is not None and Bm.shape == (total, n_out):
                 matched, _ = core.close(got, Cg @ Bm[offs[k]:offs[k] + sizes[k], :].T, tol)
         if matched and core.kf_open('KF-D2c', ID):
